@@ -2,6 +2,10 @@
 """Regenerates MANIFEST.json from the table below (run after adding a check)."""
 import json, subprocess
 CHECKS = {
+ "C04": dict(level="exploration", ref="2/C04",
+   text="Statement-level schedules of 2-3 concurrently open sessions plus autocommit statements (the single harness thread owns the schedule, so every interleaving is deterministic and replayable) are checked (a) against a snapshot-isolation reference model: every SELECT inside a session, every affected-row count, commit outcomes and the committed state; (b) model-free on the engine alone: a rollback or an uncommitted write never changes what a fresh reader sees, and a session that repeats a SELECT without writing in between gets the same rows. Sampling of schedules; UPDATE inside sessions and write-write conflicts are excluded from (a) by open findings, (b) still covers conflicting deletes.",
+   note="Trusted: the SI model (harness/src/sqlmodel.rs Model/Txn) and the schedule interpreter; tables without constraints; no DDL after setup; only the outcome of first-committer-wins is asserted.",
+   technique="property-based testing: generated transaction programs + interleavings (owned schedule), differential against an SI reference model, plus metamorphic invariants on the engine alone"),
  "C10": dict(level="exploration", ref="2/C10",
    text="Generated operation sequences (insert/update/upsert/remove/lookup/scan) on a raw B+tree through the `verif` facade, for four key schemas and a grid of page/min-keys/siblings/cache settings, are compared after every operation with a BTreeMap model (operation outcome, full in-order scan, lookup of every key) and every few operations with a structural audit of the page graph (equal leaf depth, sibling links mirror the in-order leaf sequence, child/overflow references in range, every page owned exactly once). Sampling; open findings cap the payload size that is searched (see evidence.excluded / known.json).",
    note="Trusted: the BTreeMap model and harness/src/audit.rs; text key order = the engine's public Blob ordering; the facade is logic-free plumbing over Btree::{insert,update,upsert,remove_tuple,search_tuple,iter_forward}.",
